@@ -21,6 +21,8 @@ RULES_DOC = dict(common.SHARED_DOC)
 RULES_DOC["X4"] = common.X4_DOC
 RULES_DOC["R7"] = "= C19.R2/R3: a timed-out waiter is unlinked completely (both neighbours, head and tail) before the wait returns: a later signal is not consumed by a stale node"
 RULES_DOC["X5"] = common.X5_DOC
+RULES_DOC["X6"] = common.X6_DOC
+RULES_DOC["R8"] = "= C19.R9: the deadline handed to the timed wait is the instant the caller's timespec names"
 RULES_DOC.update({
     "R1": "wait/timedwait: mutex unlock inside the cond-lock section, then lock-transferring enqueue on the same cond, mutex re-locked last",
     "R2": "signal/broadcast: exactly one wait-list operation bracketed by the cond lock",
@@ -379,6 +381,7 @@ def rule_R6(P, rep):
 
 
 def run(P, rep, tier):
+    common.rule_X6(P, rep)
     common.rule_widths(P, rep, [('ABTD_futex_multiple', 'val')])
     common.rule_X4(P, rep)
     v = P.variant
@@ -392,3 +395,4 @@ def run(P, rep, tier):
     from . import C19        # lazy: C19 imports this module
     common.borrow(rep, P, C19.rule_R2, "R7")
     common.borrow(rep, P, C19.rule_R3, "R7")
+    common.borrow(rep, P, C19.rule_R9, "R8")
